@@ -51,7 +51,7 @@ func c16(seed uint64, n int, args []string) {
 	if what == "all" || what == "signwindow" {
 		r := rng.New(seed)
 		for _, sp := range []c11spec{
-			{name: "sign-renewal-window", chunks: []int{1}, renews: 1, sign: true, order: []string{"S0", "R0*", "S0*", "R0*"}},
+			{name: "sign-renewal-window", chunks: []int{1}, renews: 1, sign: true, order: []string{"S0", "S0", "R0*", "S0*", "R0*"}},
 			{name: "sign-renewal-between-requests", chunks: []int{1, 1}, renews: 1, sign: true, order: []string{"S0*", "R0*", "S1*"}},
 		} {
 			if err := c11run(r, sp); err != nil {
